@@ -157,6 +157,10 @@ NEAR_MISSES = [
     "two_level_sum", "sub_as_sum_neg2", "neg_product_sum", "binop_permuted",
     "where_permuted", "call_permuted", "reduce_transposed_out", "sum_of_scalar_binding",
     "broadcast_wrong_axis", "three_and", "power_of_sum", "full_of_binding_expr",
+    # the lambda's shape has a leading axis that NO operand supplies (each operand alone
+    # broadcasts to the shape, their joint broadcast does not reach it)
+    "extra_axis_binop", "extra_axis_scalar_mul", "extra_axis_where", "extra_axis_call",
+    "extra_axis_unit_row", "extra_axis_reduce",
 ]
 
 
@@ -450,6 +454,25 @@ def build(case: dict[str, Any]) -> dict[str, Any]:
             il = mk(p.Power(A[i0, i1] + B[i0, i1], 2), {"a": a, "b": b}, shape2)
         elif nm == "full_of_binding_expr":
             il = mk(S * 2, {"s": s}, shape2)
+        elif nm == "extra_axis_binop":
+            w = _operand(pt, env, "w", "arr", d, [3], rng, "dyadic")
+            il = mk(p.Sum((V[i1], p.Variable("w")[i1])), {"v": v, "w": w}, (2, 3))
+        elif nm == "extra_axis_scalar_mul":
+            il = mk(p.Product((V[i1], 2)), {"v": v}, (2, 3))
+        elif nm == "extra_axis_where":
+            i2 = p.Variable("_2")
+            il = mk(p.If(C[i1, i2], A[i1, i2], B[i1, i2]), {"a": a, "b": b, "c": c}, (2, 3, 3))
+        elif nm == "extra_axis_call":
+            if sq.kind != "f":
+                out["skip"] = "outside-fragment"
+                return out
+            il = mk(p.Call(p.Variable("pytato.c99.sin"), (V[i1],)), {"v": v}, (2, 3))
+        elif nm == "extra_axis_unit_row":
+            u = _operand(pt, env, "u", "arr", d, [1, 3], rng, "ids")
+            il = mk(p.Product((p.Variable("u")[0, i1], 2)), {"u": u}, (3, 3))
+        elif nm == "extra_axis_reduce":
+            # out[_0, _1] = sum_r a[_1, _r0]: np.sum(a, axis=1) has one axis less
+            il = mk(Reduce(A[i1, r0], SumOp(), constantdict({"_r0": (0, 3)})), {"a": a}, (2, 3))
         else:
             raise ValueError(nm)
         out["il"] = il
@@ -528,9 +551,9 @@ def interpret_hlo(hlo: Any, il: Any, val_of: Any) -> np.ndarray:
             res = np.zeros_like(v(hlo.x))
         else:
             raise TypeError(f"unknown HighLevelOp {type(hlo).__name__}")
-        res = np.broadcast_to(np.asarray(res), shape) if np.asarray(res).shape != shape \
-            else np.asarray(res)
-        return res.astype(il.dtype)
+        # (no forgiving broadcast: the operation applied with NumPy must have the lambda's
+        # shape -- the numpy-like target emits exactly this expression)
+        return np.asarray(res).astype(il.dtype)
 
 
 def check_case(case: dict[str, Any], col: common.Collector) -> None:
@@ -638,9 +661,10 @@ def check_case(case: dict[str, Any], col: common.Collector) -> None:
     # for the same operation may differ in the last bit); precision-loss misreads are
     # ~1e-7 relative and stay visible.
     from vf.oracle.compare import close_ulps
-    ok = close_ulps(got, ref, 8.0)
+    ok = got.shape == ref.shape and close_ulps(got, ref, 8.0)
     if not ok:
-        key = f"C19:misread:{cell}:{type(hlo).__name__}"
+        key = f"C19:misread:{cell}:{type(hlo).__name__}" + \
+            (":shape" if got.shape != ref.shape else "")
         if (case["kind"] == "binop" and case["f1"] == "np" and case["op"] in BINOPS
                 and got.shape == ref.shape and ref.dtype.kind in "fc"
                 and np.allclose(got, ref, rtol=3e-6, atol=1e-6, equal_nan=True)):
